@@ -131,3 +131,117 @@ def same_outcome_lit_var(lit, var):
     if lit == ("compile_error", "division by zero") and var == ("fault", "division_by_zero"):
         return True
     return False
+
+
+def ref_as_real(ref):
+    """pyref outcome in the vocabulary of canon_real"""
+    if ref[0] == "val":
+        return ("val", KINDNAME[ref[1]], ref[2])
+    if ref[0] == "fault":
+        return ("fault", "division_by_zero")
+    if ref[0] == "trap":
+        return ("trap",)
+    return ref
+
+
+def eval_expr_cases(cases, T, workdir, tag, legs=("var", "lit", "dump"), jobs=16):
+    """cases: dict id -> tree.  Runs the extracted model on every tree and, for the trees the
+    model's typechecker accepts with a returnable type, the requested legs on the real code:
+      var  : operands in variables, run by nevrun            (VM)
+      lit  : literal operands, run by nevrun                 (reducer + VM, end to end)
+      dump : literal operands, compiled and dumped by dumpops (reducer read-back)
+    Returns dict id -> {model, ref, var, lit, dump, src_var, src_lit}."""
+    ids = list(cases)
+    mo = run_model(["E %s %s" % (cid, ac.sx(cases[cid])) for cid in ids], jobs=jobs)
+    out = {}
+    run_progs, dump_progs = [], []
+    for cid in ids:
+        line = mo.get(cid)
+        m = parse_model_E(line) if line else None
+        r = {"model": m, "tree": cases[cid]}
+        out[cid] = r
+        if not m or m["ty"] is None or m["ty"] == "enum":
+            continue
+        ret = m["ty"]
+        if "var" in legs:
+            r["src_var"] = ac.program_var(cases[cid], ret)
+            run_progs.append((cid + ".v", "", r["src_var"]))
+        if "lit" in legs or "dump" in legs:
+            r["src_lit"] = ac.program_lit(cases[cid], ret)
+        if "lit" in legs:
+            run_progs.append((cid + ".l", "", r["src_lit"]))
+        if "dump" in legs:
+            dump_progs.append((cid + ".d", "", r["src_lit"]))
+    res = al.run_batch(T["nevrun"], run_progs, workdir, tag + "-run", jobs=jobs) if run_progs else {}
+    dres = al.run_batch(T["dumpops"], dump_progs, workdir, tag + "-dump", jobs=jobs) if dump_progs else {}
+    for cid in ids:
+        r = out[cid]
+        if "src_var" in r:
+            r["var"] = canon_real(al.classify_run(res.get(cid + ".v")))
+        if "src_lit" in r and "lit" in legs:
+            r["lit"] = canon_real(al.classify_run(res.get(cid + ".l")))
+        if "src_lit" in r and "dump" in legs:
+            r["dump"] = folded_constant(dres.get(cid + ".d"))
+        r["ref"] = ref_as_real(ac.pyref_outcome(cases[cid]))
+    out["?model_errors"] = mo.get("?errors", [])
+    return out
+
+
+def root_key(tree, kinds=None):
+    """'<op>:<kind of left>,<kind of right>' of the root operator, kinds from the leaves'
+    static kinds when the operands are value trees"""
+    def kind_of(t):
+        while t[0] == "P":
+            t = t[1]
+        if t[0] == "L":
+            return ac.KIND_TY[t[1]]
+        if t[0] == "U":
+            return kind_of(t[2])
+        if t[0] == "B":
+            if t[1] in ac.CMP or t[1] in ("and", "or"):
+                return "bool"
+            a, b = kind_of(t[2]), kind_of(t[3])
+            order = ["int", "long", "float", "double"]
+            if a in order and b in order:
+                return order[max(order.index(a), order.index(b))]
+            return "int"
+        return kind_of(t[2])
+    t = tree
+    while t[0] == "P":
+        t = t[1]
+    if t[0] == "B":
+        return "%s:%s,%s" % (t[1], kind_of(t[2]), kind_of(t[3]))
+    if t[0] == "U":
+        return "%s:%s" % (t[1], kind_of(t[2]))
+    if t[0] == "C":
+        return "cond:%s" % kind_of(t[2])
+    return "lit:%s" % ac.KIND_TY[t[1]]
+
+
+PROMOTE_THEOREMS = ["tables_are_complete", "typecheck_model_matches_tables",
+                    "emit_model_matches_tables"]
+
+
+def table_obligations(ctx):
+    """Re-check Arith/PromoteProofs.v against the freshly generated tables and register the
+    tie obligations (model = tables).  Returns (ok, log)."""
+    with common.Lock("coq"):
+        rc, so, se = common.sh("coqc -Q . NV Arith/PromoteProofs.v", cwd=common.COQ, timeout=600)
+    log = (so + se)[-3000:]
+    failing = None
+    if rc != 0:
+        m = re.search(r'line (\d+), characters', so + se)
+        if m:
+            ln = int(m.group(1))
+            src = open(os.path.join(common.COQ, "Arith", "PromoteProofs.v")).read().splitlines()
+            for i in range(min(ln, len(src)) - 1, -1, -1):
+                mm = re.match(r"\s*(Theorem|Lemma|Corollary)\s+([A-Za-z0-9_']+)", src[i])
+                if mm:
+                    failing = mm.group(2)
+                    break
+    for name in PROMOTE_THEOREMS:
+        ok = rc == 0 or (failing is not None and failing != name and
+                         PROMOTE_THEOREMS.index(name) < (PROMOTE_THEOREMS.index(failing)
+                                                         if failing in PROMOTE_THEOREMS else 99))
+        ctx.obligation("table:" + name, ok, None if ok else {"failing_lemma": failing, "log": log})
+    return rc == 0, failing, log
